@@ -8,8 +8,13 @@ from .common import load
 ns = load()
 
 
-def edit(rng, spec, model, n=None):
-    """Returns (edited spec, list of human-readable edits). `model` (vf.build.Model) is edited in place."""
+MID_RUN = ("skill_busy", "fskill_busy", "skill", "cost", "absence_assign", "absence_append", "rule", "solo", "fixed", "rate", "fskill", "fcost")
+
+
+def edit(rng, spec, model, n=None, only=None):
+    """Returns (edited spec, list of human-readable edits). `model` (vf.build.Model) is edited in place.
+    only: restrict the kinds of edit (MID_RUN: those that make sense between a pause and its resume -
+    defaults that are only read by initialize() and capacities below the current load are left out)."""
     s = copy.deepcopy(spec)
     done = []
     workers = [(ti, wi) for ti, tm in enumerate(s["teams"]) for wi in range(len(tm["workers"]))]
@@ -17,6 +22,11 @@ def edit(rng, spec, model, n=None):
     kinds = ["skill", "cost", "work", "progress", "absence_assign", "absence_append", "rule", "solo", "fixed", "rate"]
     if facs:
         kinds += ["fskill", "space", "fcost"]
+    kinds += ["skill_busy"] + (["fskill_busy"] if facs else [])
+    if len(s["tasks"]) >= 2:
+        kinds += ["edge_add"]
+    if only is not None:
+        kinds = [k for k in only if k in kinds]     # (repeated entries of `only` weigh more)
     for _ in range(n or rng.randint(1, 3)):
         k = rng.choice(kinds)
         if k in ("skill", "cost", "absence_assign", "absence_append", "solo") and workers:
@@ -49,6 +59,31 @@ def edit(rng, spec, model, n=None):
                 w["solo"] = not w["solo"]
                 o.solo_working = w["solo"]
                 done.append("worker %s solo=%r" % (w["id"], w["solo"]))
+        elif k in ("skill_busy", "fskill_busy"):
+            # the skill of a resource for the very task it is working on right now
+            pool = model.workers if k == "skill_busy" else model.facs
+            busy = [(rid, o) for rid, o in sorted(pool.items()) if o.assigned_task_list]
+            if busy:
+                rid, o = rng.choice(busy)
+                t = rng.choice(list(o.assigned_task_list))
+                old_v = o.workamount_skill_mean_map.get(t.name, 0.0)
+                v = rng.choice([x for x in (0.5, 1.0, 2.0, 3.0) if x != old_v])
+                o.workamount_skill_mean_map[t.name] = v
+                for grp, key in ((s["teams"], "workers"), (s["wps"], "facilities")):
+                    for g in grp:
+                        for w in g[key]:
+                            if w["id"] == rid:
+                                w["skills"][t.name] = v
+                done.append("%s %s skill[%s]=%r (busy)" % ("worker" if k == "skill_busy" else "facility", rid, t.name, v))
+        elif k == "edge_add":
+            # a new dependency between two tasks (from a lower to a higher index: no cycle)
+            i = rng.randrange(1, len(s["tasks"]))
+            j = rng.randrange(0, i)
+            if not any(d[0] == j for d in s["tasks"][i]["deps"]):
+                kind = rng.choice([0, 0, 1, 2, 3])
+                s["tasks"][i]["deps"].append([j, kind])
+                model.tasks[i].append_input_task(model.tasks[j], ns.BaseTaskDependency(kind))
+                done.append("new dependency %s -> %s (kind %d)" % (s["tasks"][j]["id"], s["tasks"][i]["id"], kind))
         elif k in ("work", "progress", "rule", "fixed", "rate"):
             i = rng.randrange(len(s["tasks"]))
             t = s["tasks"][i]
